@@ -32,11 +32,16 @@ inductive Conf (std : Std) : Ty → PyVal → Prop
   | int (i : Int) : Conf std .int (.int i)
   | float (f : PyFloat) : Conf std .float (.float f)
   | leaf (k : LeafKind) (t : S) : std.validTok k t = true → Conf std (.leaf k) (.leaf k false t)
+  | timedelta (us : Int) : 0 ≤ us → Conf std .timedelta (.timedelta us)
+  | enum (name : S) (members : List (S × Lit)) (m : S) (v : Lit) : (m, v) ∈ members → jEqLit v.toJ v = true →
+      (∀ m' ∈ members, jEqLit v.toJ m'.2 = true → m' = (m, v)) → Conf std (.enum name members) (.enum name m v)
   | str (s : S) : Conf std .str (.str s)
   | bool (b : Bool) : Conf std .bool (.bool b)
   | optNone (t : Ty) : Conf std (.optional t) .none
   | optSome (t : Ty) (v : PyVal) : nonNullTy t = true → Conf std t v → Conf std (.optional t) v
   | list (t : Ty) (xs : List PyVal) : (∀ x ∈ xs, Conf std t x) → Conf std (.seq .list t) (.seq .list xs)
+  | deque (t : Ty) (xs : List PyVal) : (∀ x ∈ xs, Conf std t x) → Conf std (.seq .deque t) (.seq .deque xs)
+  | vtuple (t : Ty) (xs : List PyVal) : (∀ x ∈ xs, Conf std t x) → Conf std (.vtuple t) (.tuple xs)
   | dict (t : Ty) (kvs : List (S × PyVal)) : (kvs.map (·.1)).Nodup → (∀ p ∈ kvs, Conf std t p.2) →
       Conf std (.map .dict .str t) (.map .dict (kvs.map (fun p => (.str p.1, p.2))))
   | inst (ci : ClassInfo) (ftys : List (S × Ty)) (vals : List PyVal) : PlainCls ci ftys → vals.length = ftys.length →
@@ -84,6 +89,38 @@ theorem rt_leaf (std : Std) (laws : StdLaws std) (k : LeafKind) (t : S) (ht : st
   · simp only [toJ, leafText, loadV1, v1Datetime]; rw [laws.datetime_rt_z t ht]; rfl
 
 
+theorem dump_timedelta (std : Std) (us : Int) : dumpV std false cV1 (.timedelta us) = .ok (.str (tdStr us)) := by
+  simp [dumpV, dumpScalar, pure, Except.pure]
+
+theorem rt_timedelta (std : Std) (laws : StdLaws std) (us : Int) (h0 : 0 ≤ us) : RT1 std .timedelta (.timedelta us) := by
+  intro d h
+  rw [dump_timedelta] at h; cases h
+  obtain ⟨n, hn, hs⟩ := laws.timedelta_rt us h0
+  have htj : toJ (.str (tdStr us)) = .str (tdStr us) := by rw [toJ]
+  rw [htj, loadV1]
+  simp only [v1Timedelta, asTimedelta, looksNumeric_false (tdStr us) (colon_mem_tdStr us), Bool.false_eq_true, if_false, hn, hs,
+    pure, Except.pure, Except.mapError]
+
+theorem dump_enum (std : Std) (name m : S) (v : Lit) : dumpV std false cV1 (.enum name m v) = .ok v.toD := by
+  simp [dumpV, dumpScalar, pure, Except.pure]
+
+theorem rt_enum (std : Std) (name : S) (members : List (S × Lit)) (m : S) (v : Lit) (hm : (m, v) ∈ members)
+    (hrefl : jEqLit v.toJ v = true) (huniq : ∀ m' ∈ members, jEqLit v.toJ m'.2 = true → m' = (m, v)) :
+    RT1 std (.enum name members) (.enum name m v) := by
+  intro d h
+  rw [dump_enum] at h; cases h
+  rw [toJ_litToD, loadV1]
+  unfold v1Enum asEnum
+  cases hf : members.find? (fun m' => jEqLit v.toJ m'.2) with
+  | none =>
+    have := List.find?_eq_none.1 hf (m, v) hm
+    simp [hrefl] at this
+  | some m' =>
+    have hmem := List.mem_of_find?_eq_some hf
+    have hp : jEqLit v.toJ m'.2 = true := by simpa using List.find?_some hf
+    rw [huniq m' hmem hp]
+    rfl
+
 theorem dumpV_list (std : Std) (xs : List PyVal) :
     dumpV std false cV1 (.seq .list xs) = (dumpList std false cV1 xs).map DVal.list := by
   rw [dumpV]
@@ -128,6 +165,38 @@ theorem rt_list (std : Std) (t : Ty) (xs : List PyVal) (ih : ∀ x ∈ xs, RT1 s
     have htj : toJ (.list ds) = .list (toJList ds) := by rw [toJ]
     rw [htj, loadV1]
     simp only [jIter, bind, Except.bind, mapME_list std t xs ds ih hd, mkSeq, pure, Except.pure, Except.mapError]
+
+theorem dumpV_deque (std : Std) (xs : List PyVal) :
+    dumpV std false cV1 (.seq .deque xs) = (dumpList std false cV1 xs).map DVal.list := by
+  rw [dumpV]
+  simp only [hookFor_deque, bind, Except.bind, pure, Except.pure, Except.map]
+
+theorem dumpV_tuple (std : Std) (xs : List PyVal) :
+    dumpV std false cV1 (.tuple xs) = (dumpList std false cV1 xs).map DVal.tuple := by
+  rw [dumpV]
+  simp only [hookFor_tuple, bind, Except.bind, pure, Except.pure, Except.map]
+
+theorem rt_deque (std : Std) (t : Ty) (xs : List PyVal) (ih : ∀ x ∈ xs, RT1 std t x) : RT1 std (.seq .deque t) (.seq .deque xs) := by
+  intro d h
+  rw [dumpV_deque] at h
+  cases hd : dumpList std false cV1 xs with
+  | error e => simp [hd, Except.map] at h
+  | ok ds =>
+    simp [hd, Except.map] at h; subst h
+    have htj : toJ (.list ds) = .list (toJList ds) := by rw [toJ]
+    rw [htj, loadV1]
+    simp only [jIter, bind, Except.bind, mapME_list std t xs ds ih hd, mkSeq, pure, Except.pure, Except.mapError]
+
+theorem rt_vtuple (std : Std) (t : Ty) (xs : List PyVal) (ih : ∀ x ∈ xs, RT1 std t x) : RT1 std (.vtuple t) (.tuple xs) := by
+  intro d h
+  rw [dumpV_tuple] at h
+  cases hd : dumpList std false cV1 xs with
+  | error e => simp [hd, Except.map] at h
+  | ok ds =>
+    simp [hd, Except.map] at h; subst h
+    have htj : toJ (.tuple ds) = .list (toJList ds) := by rw [toJ]
+    rw [htj, loadV1]
+    simp only [jIter, bind, Except.bind, mapME_list std t xs ds ih hd, pure, Except.pure]
 
 def pairLoader (std : Std) (t : Ty) (kv : S × JVal) : Except LErr (PyVal × PyVal) := do
   let k' ← loadV1 std cV1 .str (.str kv.1)
@@ -187,12 +256,22 @@ theorem dump_nonnull (std : Std) (t : Ty) (v : PyVal) (hc : Conf std t v) (hn : 
   | int i => rw [dump_int] at h; cases h; simp [toJ]
   | float f => rw [dump_float] at h; cases h; simp [toJ]
   | leaf k t _ => rw [dump_leaf] at h; cases h; simp [toJ]
+  | timedelta us _ => rw [dump_timedelta] at h; cases h; simp [toJ]
+  | enum name members m v _ _ _ => simp [nonNullTy] at hn
   | str s => rw [dump_str] at h; cases h; simp [toJ]
   | bool b => rw [dump_bool] at h; cases h; simp [toJ]
   | optNone t => simp [nonNullTy] at hn
   | optSome t v _ _ => simp [nonNullTy] at hn
   | list t xs _ =>
     rw [dumpV_list] at h
+    cases hd : dumpList std false cV1 xs <;> simp [hd, Except.map] at h
+    subst h; simp [toJ]
+  | deque t xs _ =>
+    rw [dumpV_deque] at h
+    cases hd : dumpList std false cV1 xs <;> simp [hd, Except.map] at h
+    subst h; simp [toJ]
+  | vtuple t xs _ =>
+    rw [dumpV_tuple] at h
     cases hd : dumpList std false cV1 xs <;> simp [hd, Except.map] at h
     subst h; simp [toJ]
   | dict t kvs _ _ =>
@@ -410,11 +489,15 @@ theorem roundtrip (std : Std) (laws : StdLaws std) (t : Ty) (v : PyVal) (hc : Co
   | int i => exact rt_int std i
   | float f => exact rt_float std f
   | leaf k t ht => exact rt_leaf std laws k t ht
+  | timedelta us h0 => exact rt_timedelta std laws us h0
+  | enum name members m v hm hr hu => exact rt_enum std name members m v hm hr hu
   | str s => exact rt_str std s
   | bool b => exact rt_bool std b
   | optNone t => exact rt_optNone std t
   | optSome t v hn hc ih => exact rt_optSome std t v hn hc ih
   | list t xs _ ih => exact rt_list std t xs ih
+  | deque t xs _ ih => exact rt_deque std t xs ih
+  | vtuple t xs _ ih => exact rt_vtuple std t xs ih
   | dict t kvs hnd _ ih => exact rt_dict std t kvs hnd ih
   | inst ci ftys vals hp hlen _ ih => exact rt_inst std ci ftys vals hp hlen ih
 
